@@ -196,6 +196,24 @@ fn word_masks(ctx: &mut Ctx) {
 }
 
 // Independent computation of the long/short classification: span of each full or partial superblock of `positions`.
+// Short superblocks whose span is at least half the long/short threshold: their relative offsets need as many bits as
+// the threshold itself has (the widest values the block samples of a short superblock ever hold).
+fn wide_short_superblocks(positions_count: usize, select: &dyn Fn(usize) -> usize, len: usize) -> usize {
+    let bl = 64 - (std::cmp::max(len, 1) as u64).leading_zeros() as usize;
+    let log4 = bl * bl * bl * bl;
+    let half = 1usize << (63 - (log4 as u64).leading_zeros() as usize); // largest power of two <= log4
+    let mut wide = 0;
+    let mut r = 0;
+    while r < positions_count {
+        let start = select(r);
+        let limit = if r + 4096 < positions_count { select(r + 4096) } else { len };
+        let last = select(std::cmp::min(r + 4095, positions_count - 1));
+        if limit - start < log4 && last - start >= half { wide += 1; }
+        r += 4096;
+    }
+    wide
+}
+
 fn superblock_classes(positions_count: usize, select: &dyn Fn(usize) -> usize, len: usize) -> (usize, usize) {
     let mut long = 0;
     let mut short = 0;
@@ -229,12 +247,24 @@ fn regime(ctx: &mut Ctx) {
             (280_000, 8192, 5, 0, 0, true),
         ]);
     }
+    // Superblocks with prescribed spans around the long/short threshold T = bit_len(len)^4 and around the largest power of
+    // two below it (for ~1.3 Mbit: T = 194 481, 2^17 = 131 072): (shape, invert).
+    let mut span_cfgs: Vec<(usize, bool)> = vec![(4, false), (4, true)];
+    if !ctx.quick() { span_cfgs.extend_from_slice(&[(0, false), (1, true), (1, false), (2, true), (3, false), (0, true)]); }
     let stride = 1;
-    for (ci, cfg) in configs.iter().enumerate() {
+    for ci in 0..configs.len() + span_cfgs.len() {
         if !ctx.mine(ci as u64) { continue; }
         if !ctx.begin_case() { continue; }
         let mut rng = ctx.rng(0x4E + ci as u64);
-        let bits = gen::superblock_mix(&mut rng, cfg.0, cfg.1, cfg.2, cfg.3, cfg.4, cfg.5);
+        let bits = if ci < configs.len() {
+            let cfg = configs[ci];
+            gen::superblock_mix(&mut rng, cfg.0, cfg.1, cfg.2, cfg.3, cfg.4, cfg.5)
+        } else {
+            let (shape, invert) = span_cfgs[ci - configs.len()];
+            let t = 21usize * 21 * 21 * 21; // the total below stays between 2^20 and 2^21 bits
+            let spans = [t - 1, 131_072, t, 131_071, 5000 + rng.below(3000), t - 2 - rng.below(60_000), 131_073 + rng.below(1000), 65_536, t + 1];
+            gen::superblock_spans(&mut rng, &spans, shape, invert)
+        };
         let n = bits.len();
         let model = SetModel::from_bits(&bits);
         let ones = model.count_ones();
@@ -263,6 +293,8 @@ fn regime(ctx: &mut Ctx) {
         let zero_positions: Vec<usize> = (0..n).filter(|i| !bits[*i]).collect();
         let (long1, short1) = superblock_classes(ones, &|r| model.ones[r], n);
         let (long0, short0) = superblock_classes(zeros, &|r| zero_positions[r], n);
+        ctx.count("regime.model_wide_short_superblocks_ones", wide_short_superblocks(ones, &|r| model.ones[r], n) as u64);
+        ctx.count("regime.model_wide_short_superblocks_zeros", wide_short_superblocks(zeros, &|r| zero_positions[r], n) as u64);
         ctx.count("regime.model_long_superblocks_ones", long1 as u64);
         ctx.count("regime.model_short_superblocks_ones", short1 as u64);
         ctx.count("regime.model_long_superblocks_zeros", long0 as u64);
